@@ -108,11 +108,73 @@ theorem analyze_pv_head_legal {g : Game P M} (hg : GameOK g) (hb : EvalBounded g
   rintro x ⟨_, _, _, _, _, m, rest, c, h1, h2, _⟩
   exact ⟨m, rest, c, h1, h2⟩
 
+/-- whatever the child searches return, the randomised choice only ever selects the PV head or a move the generator
+validated: if the first PV move is legal, so is the move `GetMove` picks — for every random stream `o.rnd`, every
+window and scale, every configuration and engine state (the loop body is only run on legal `(m, child)` pairs). -/
+theorem getMoveFrom_legal (g : Game P M) (cfg : Search.Cfg) (o : Oracle M) (p : P)
+    (pv0 : M) (rest : List M) (v : Int) (st : Stats) (s : Eng M) (c0 : P) (h0 : g.apply p pv0 = .ok c0) :
+    Sat (getMoveFrom g cfg o p (pv0 :: rest) v st s) (fun x => ∃ c, g.apply p x.1 = .ok c) := by
+  unfold getMoveFrom
+  dsimp only
+  split
+  · exact Sat.ok ⟨c0, h0⟩
+  · split
+    · exact Sat.ok ⟨c0, h0⟩
+    · have hb : BodyOK g p (gmBody g cfg o st.depth rest v (v - cfg.randomizeWindow))
+          (fun a _ => ∃ c, g.apply p a.rv = .ok c) (fun _ _ => True) (fun _ _ => False) (fun _ _ => False) := by
+        intro m c a s hap hinv
+        unfold gmBody
+        apply Sat.bind; intro sm _
+        apply Sat.bind; intro r _
+        dsimp only
+        split
+        · exact Sat.pure ⟨hinv, fun _ _ => trivial, fun _ _ => trivial⟩
+        · split
+          · exact Sat.pure ⟨hinv, fun _ _ => trivial, fun _ _ => trivial⟩
+          · split
+            · exact Sat.throw
+            · refine Sat.pure ⟨?_, fun _ _ => trivial, fun _ _ => trivial⟩
+              dsimp only
+              split
+              · exact ⟨c, hap⟩
+              · exact hinv
+      have hit := iterate_inv hb cfg.opts o (rootMG st.depth (pv0 :: rest)) (fun _ _ _ h => h)
+        (⟨pv0, 0⟩ : GmAcc M) s ⟨c0, h0⟩
+      cases hi : iterate g cfg.opts o p (rootMG st.depth (pv0 :: rest))
+          (gmBody g cfg o st.depth rest v (v - cfg.randomizeWindow)) (⟨pv0, 0⟩ : GmAcc M) s with
+      | error e => exact Sat.error
+      | ok y =>
+        obtain ⟨ctl, s2⟩ := y
+        have hpost := hit _ hi
+        cases ctl with
+        | next a => exact Sat.ok hpost.1
+        | brk a => exact absurd hpost id
+        | ret r => exact absurd hpost id
+
+/-- **`getMove_legal`** (no table, precise options — where `analyze_pv_head_legal` is proved): `GetMove` on a live
+position returns a legal move, with and without the randomised choice, for every random stream. -/
+theorem getMove_legal {g : Game P M} (hg : GameOK g) (hb : EvalBounded g) {cfg : Search.Cfg}
+    (hpr : Precise cfg.opts) {o : Oracle M} (hnc : NoCancel o) (hord : OrderOK o)
+    (p : P) (hov : g.over p = false) (hdepth : 1 ≤ cfg.depth)
+    (hlive : ∀ d : Nat, 1 ≤ d → (d : Int) ≤ cfg.depth → Live g d p)
+    (s : Eng M) (hs : s.hasTable = false) :
+    Sat (getMove g cfg o p s) (fun x => ∃ c, g.apply p x.1 = .ok c) := by
+  unfold getMove
+  have ha := analyze_pv_head_legal hg hb hpr hnc hord p hov hdepth hlive s hs
+  cases hr : analyze g cfg o p s with
+  | error e => exact Sat.error
+  | ok x =>
+    obtain ⟨⟨pv, v, st⟩, s1⟩ := x
+    obtain ⟨m, rest, c, hpv, hap⟩ := ha _ hr
+    dsimp only at hpv ⊢
+    subst hpv
+    exact getMoveFrom_legal g cfg o p m rest v st s1 c hap
+
 /-- non-vacuity: on the heap game the recording loop yields the two legal moves of a heap of 3, in
 generation order, although the hints are garbage (an illegal table move 7 and an illegal PV hint 0) -/
 example : (match iterate Toy.game Toy.cfg.opts Oracle.quiet 3
-      ⟨0, 3, some ⟨0#64, 0, 7, 0, 0⟩, [0]⟩ (record (M := Nat) (P := Nat)) [] (Eng.new Toy.game Toy.cfg) with
-    | .ok (.next l, _) => some l
+      ⟨0, 3, some ⟨0#64, 0, 7, 0, 0⟩, [0]⟩ (record (M := Nat) (P := Fin 32)) [] (Eng.new Toy.game Toy.cfg) with
+    | .ok (.next l, _) => some (l.map (fun (x : Nat × Fin 32) => (x.1, x.2.val)))
     | _ => none) = some [(1, 2), (2, 1)] := by decide
 
 end C04
